@@ -73,7 +73,7 @@ RunProg(m, prog, i, target) ==
   ELSE RunProg(SymStep(m, prog[i]), prog, i + 1, target)
 
 \* ---------------- chunk actions ----------------
-\* c = [k |-> "lzma", class, newprops (0 = none), prog, u (declared unpacked size), pk ("exact"|"short"|"long")]
+\* c = [k |-> "lzma", class, newprops (0 = none), prog, u (declared unpacked size), pk ("exact"|"short"|"long"), eos (marker after prog)]
 \*     [k |-> "raw", reset, data, short (BOOLEAN: fewer data bytes than declared)]
 ProgOut(cs0, prog) ==   \* declarative: [ok, cs] after applying the whole program
   LET F[i \in 0..Len(prog)] ==
@@ -98,13 +98,15 @@ LzmaChunk(c) ==
          \* input short: a symbol (or the preamble) needs bytes beyond the Take limit
          starved == c.pk = "short" \/ (~m.err /\ Len(m.acc) < target)   \* program ended before target: decoder reads on -> EOF
          \* after the loop: len must equal target; range coder must be finished (all symbols used, no spare bytes)
-         finished == r.used = Len(c.prog) /\ c.pk = "exact"
-         bad == m.err \/ starved \/ Len(m.acc) # target \/ ~finished
+         finished == r.used = Len(c.prog) /\ c.pk = "exact" /\ ~(c.eos /\ Len(m.acc) >= target)   \* an unread marker is spare input
+         \* an end marker inside the chunk (after the program): Finished -> leave the loop -> len # target -> error
+         eosHit == c.eos /\ ~m.err /\ r.used = Len(c.prog) /\ Len(m.acc) < target
+         bad == m.err \/ (starved /\ ~eosHit) \/ eosHit \/ Len(m.acc) # target \/ ~finished
      IN /\ sink' = sink0
         /\ iprops' = IF c.class >= 2 THEN c.newprops ELSE iprops
         /\ IF bad
            THEN /\ res' = "err"
-                /\ why' = (IF m.err THEN "dist" ELSE IF c.pk = "short" THEN "packed-short" ELSE IF Len(m.acc) < target THEN "unpacked-more"
+                /\ why' = (IF m.err THEN "dist" ELSE IF eosHit THEN "eos-in-chunk" ELSE IF c.pk = "short" THEN "packed-short" ELSE IF Len(m.acc) < target THEN "unpacked-more"
                            ELSE IF Len(m.acc) > target THEN "unpacked-less-inside-match" ELSE IF r.used < Len(c.prog) THEN "unpacked-less-between-symbols" ELSE "packed-long")
                 /\ acc' = acc0 /\ UNCHANGED <<ist, irep>>
            ELSE /\ acc' = m.acc /\ ist' = m.st /\ irep' = m.rep /\ UNCHANGED <<res, why>>
@@ -112,7 +114,7 @@ LzmaChunk(c) ==
   /\ LET hist0 == IF c.class = 3 THEN <<>> ELSE d.cs.out
          cs0 == [st |-> IF c.class >= 1 THEN 0 ELSE d.cs.st, rep |-> IF c.class >= 1 THEN <<0, 0, 0, 0>> ELSE d.cs.rep, out |-> hist0]
          p == ProgOut(cs0, c.prog)
-         good == p.ok /\ Len(p.cs.out) - Len(hist0) = c.u /\ c.pk = "exact"
+         good == p.ok /\ Len(p.cs.out) - Len(hist0) = c.u /\ c.pk = "exact" /\ ~c.eos      \* LZMA2 chunks never carry an end marker
      IN d' = IF good THEN [d EXCEPT !.cs = p.cs, !.before = IF c.class = 3 THEN @ \o d.cs.out ELSE @,
                                     !.props = IF c.class >= 2 THEN c.newprops ELSE @]
              ELSE [d EXCEPT !.v = "err"]
@@ -168,6 +170,6 @@ Verdict   == /\ (res = "err") = (d.v = "err")
              /\ (res = "ok" => sink = d.before \o d.cs.out)
 SinkPrefix == IsPrefixOf(sink, d.before \o d.cs.out)
 \* C17: every framing fault ends in an error (never "ok")
-FramingRejected == why \in {"control", "props", "packed-short", "packed-long", "unpacked-more", "unpacked-less-inside-match",
+FramingRejected == why \in {"control", "props", "eos-in-chunk", "packed-short", "packed-long", "unpacked-more", "unpacked-less-inside-match",
                             "unpacked-less-between-symbols", "raw-short", "missing-end"} => res = "err"
 ====
